@@ -46,6 +46,7 @@ fn arg_after<'a>(args: &'a [String], flag: &str) -> Option<&'a str> {
 
 fn dispatch_run(prop: &str, tier: Tier, shard: Shard, rep: &mut Report) {
     match prop {
+        "C02" => props::c02::run(tier, shard, rep),
         "C03" => props::c03::run(tier, shard, rep),
         "C07" => props::c07::run(tier, shard, rep),
         "C08" => props::c08::run(tier, shard, rep),
@@ -53,6 +54,7 @@ fn dispatch_run(prop: &str, tier: Tier, shard: Shard, rep: &mut Report) {
         "C13" => props::c13::run(tier, shard, rep),
         "C14" => props::c14::run(tier, shard, rep),
         "C15" => props::c15::run(tier, shard, rep),
+        "C18" => props::c18::run(tier, shard, rep),
         "C19" => props::c19::run(tier, shard, rep),
         "C20" => props::c20::run(tier, shard, rep),
         "C16" => props::c16::run(tier, shard, rep),
@@ -66,6 +68,7 @@ fn dispatch_run(prop: &str, tier: Tier, shard: Shard, rep: &mut Report) {
 
 fn dispatch_replay(prop: &str, case: &serde_json::Value, rep: &mut Report) {
     match prop {
+        "C02" => props::c02::replay(case, rep),
         "C03" => props::c03::replay(case, rep),
         "C07" => props::c07::replay(case, rep),
         "C08" => props::c08::replay(case, rep),
@@ -73,6 +76,7 @@ fn dispatch_replay(prop: &str, case: &serde_json::Value, rep: &mut Report) {
         "C13" => props::c13::replay(case, rep),
         "C14" => props::c14::replay(case, rep),
         "C15" => props::c15::replay(case, rep),
+        "C18" => props::c18::replay(case, rep),
         "C19" => props::c19::replay(case, rep),
         "C20" => props::c20::replay(case, rep),
         "C16" => props::c16::replay(case, rep),
